@@ -42,7 +42,7 @@ class LabeledUnicast(NLRI):
     SAFI = SAFNUM_MPLS_LABEL
 
     @classmethod
-    def parse(cls, nlri_data, addpath=False):
+    def parse(cls, nlri_data, addpath=False, iswithdraw=False):
         nlri_list = []
         while nlri_data:
             path_id = None
@@ -58,7 +58,12 @@ class LabeledUnicast(NLRI):
                 nlri_byte_len = nlri_bit_len // 8 + 1
 
             offset = nlri_byte_len + 1
-            label = cls.parse_mpls_label_stack(nlri_data[1:])
+            if iswithdraw:
+                # a withdrawal carries one label field (0x800000 by convention)
+                # whose bottom-of-stack bit is not set: do not scan for one
+                label = [struct.unpack('!L', b'\x00' + nlri_data[1:4])[0] >> 4]
+            else:
+                label = cls.parse_mpls_label_stack(nlri_data[1:])
             label_byte_len = len(label) * 3
             prefix_byte_len = nlri_byte_len - label_byte_len
             prefix_mask = nlri_bit_len - label_byte_len * 8
